@@ -456,7 +456,7 @@ class Sym:
         if k == 0:
             return (nm, None, None, None)
         if k == 1:
-            return (nm, 'f%d.txt' % i, None, 'text/plain; charset=iso-8859-1')
+            return (nm, 'f;%d.txt' % i, None, 'text/plain; charset=iso-8859-1')     # ';' inside a quoted value, no backslash
         if k == 2:
             return (nm, None, ('UTF-8', 'naïve é.txt'), 'application/json')
         if k == 3:
